@@ -525,6 +525,22 @@ def _origin_of(exc):
     return "code"
 
 
+_prev_dirs = {}
+
+
+def _write_previous_jobs(jobs):
+    """results.json files of the previous jobs (job1, job2, ...) in a scratch logs directory; returns the directory."""
+    key = common.stable_hash(jobs)
+    if key not in _prev_dirs:
+        d = os.path.join(common.workdir(), "prevjobs", key)
+        for i, results in enumerate(jobs):
+            os.makedirs(os.path.join(d, f"job{i + 1}"), exist_ok=True)
+            with open(os.path.join(d, f"job{i + 1}", "results.json"), "w") as f:
+                json.dump({"tests": [dict(r) for r in results]}, f)
+        _prev_dirs[key] = d
+    return _prev_dirs[key]
+
+
 class Execution:
     __slots__ = ("choices", "points", "trace", "exc", "exc_type", "final", "snapshots", "steps", "vtime", "graph", "swarms", "exc_origin")
 
@@ -546,7 +562,14 @@ def execute(scn: Scenario, prefix=(), want_snapshots=False, keep_graph=False) ->
     job.logdir = "."
     job.timeout = None
     runner.job = job
-    runner.previous_results = [dict(r) for r in scn.previous]
+    # previous jobs are loaded the way a run does it: from results.json files through the runner's own loader
+    runner.previous_results = []
+    if scn.previous:
+        jobs = getattr(scn, "previous_jobs", None) or [scn.previous]
+        logs = _write_previous_jobs(jobs)
+        names = " ".join(f"job{i + 1}" for i in range(len(jobs)))
+        job.config = {"param_dict": dict(scn.params, replay=names), "datadir.paths.logs_dir": logs}
+        runner.results_from_previous_jobs()
     g.runner = runner
     ch = Chooser(prefix)
     loop = VLoop(ch, max_steps=getattr(scn, 'max_steps', 200000 if ('NORESULT' in scn.O or (scn.persistent and scn.persistent[1] == 'NORESULT')) else 6000), max_time=getattr(scn, 'max_vtime', 6000.0))
